@@ -74,6 +74,11 @@ MenuDry == Installs({"cA", "cH"}, B, B, B, B, B) \cup CRDInstalls(B, B, B, B) \c
 \* every short real history (incl. an uninstalled last revision)
 MenuDryEnum == Installs({"cH"}, B, F, F, F, B) \cup Upgrades({"cI"}, F, F, {0, 1}, F, F, B)
                \cup Rollbacks({0}, {0}, F, F, B) \cup Uninstalls(B, F, B)
+MenuLedgerEnum == Installs({"cA"}, B, F, F, F, F) \cup Upgrades({"cB"}, F, F, {0, 2}, F, F, F) \cup Rollbacks({0, 1}, {0}, F, F, F)
+                  \cup Uninstalls(B, F, F) \cup UpInstalls({"cB"}, F, F, F, F, F)
+MenuHooksEnum == Installs({"cH", "cJ"}, F, F, B, F, F) \cup Upgrades({"cI", "cJ"}, F, F, {0}, F, F, F) \cup Rollbacks({0}, {0}, F, F, F)
+                 \cup Uninstalls(B, F, F)
+MenuOwnEnum == Installs({"cA", "cB"}, B, F, F, B, F) \cup Upgrades({"cB", "cL"}, F, F, {0}, F, B, F) \cup Uninstalls(F, F, F)
 \* ownership family (C07)
 MenuOwn == Installs({"cA", "cB", "cL"}, B, F, F, B, F) \cup Upgrades({"cB", "cC", "cL", "cA"}, F, F, {0}, F, B, F)
            \cup Uninstalls(F, F, F) \cup Rollbacks({0}, {0}, F, F, F)
